@@ -65,6 +65,10 @@ def run(ctx):
                 kinds.add("len(type)")
             elif lf.kind == "call" and callee_name(lf.data[1]) == "core::slice::len" and root_ids(pb, lf.data[1]["args"][0]) == frozenset([("param", 2, ())]):
                 kinds.add("len(payload)")
+            elif lf.kind == "call" and callee_name(lf.data[1]) == "core::slice::len" and (lambda rl_: bool(rl_) and all(
+                    x.kind == "param" and x.data == 1 and not x.path and set(x.via) <= {"String::as_bytes", "str::as_bytes", "String::as_str", "Deref::deref"} for x in rl_))(
+                    pb.trace(lf.data[1]["args"][0], (), None, {"__flow_all__": lambda tt: callee_name(tt) in ("core::str::as_bytes", "std::string::String::as_bytes", "std::string::String::as_str", "std::ops::Deref::deref")})):
+                kinds.add("len(type)")      # the byte length of the type string, taken from its bytes
             elif lf.kind == "unop" and lf.data[2].get("op") == "PtrMetadata" and root_ids(pb, lf.data[2]["a"]) == frozenset([("param", 2, ())]):
                 kinds.add("len(payload)")
             elif lf.kind == "param" and lf.data == 1 and not lf.path:
@@ -108,6 +112,35 @@ def run(ctx):
             ctx.inst("C20/D1", "header fields", seq == want_seq and consts["sep"].strip() == "", "fields joined by %r: %s (expected %s)" % (consts["sep"], seq, want_seq), pack["at"])
             ctx.inst("C20/D1", "payload appended verbatim after the header", seq == want_seq and all(
                 not lf.via for lf in pb.trace(arrj[0].data[2]["ops"][-1])), "the last field is the payload parameter itself", pack["at"])
+    if len(rl0) == 1 and rl0[0].kind == "call" and callee_name(rl0[0].data[1]) in ("std::vec::Vec::new", "std::vec::Vec::with_capacity") and not parts_form \
+            and not rl0[0].data[1]["dst"]["p"]:
+        # the encoding appended piece by piece to a fresh vector (helpers inlined): the ORDER of the appends is checked
+        m = rl0[0].data[1]["dst"]["l"]
+        THRU2 = {"__flow_all__": lambda tt: callee_name(tt) in ("core::str::as_bytes", "std::string::String::as_bytes", "std::string::ToString::to_string",
+                                                                "std::string::String::as_str", "std::ops::Deref::deref")}
+        muts = [(bb_, t_) for (bb_, t_, ai_) in pb.mutators.get(m, []) if ai_ == 0 and bb_ in pb.reach]
+        names_ok = all(callee_name(t_) in ("std::vec::Vec::extend_from_slice", "std::vec::Vec::push", "std::iter::Extend::extend") for (_b, t_) in muts)
+        chain = sorted(muts, key=lambda x: sum(1 for y in muts if pb.dom_plain(y[0], x[0])))
+        linear = all(pb.dom_plain(chain[i_][0], chain[i_ + 1][0]) for i_ in range(len(chain) - 1)) and not any(x[0] in l_ for x in muts for l_ in pb.loops().values())
+        if muts and names_ok and linear:
+            parts_form = True
+            seq = []
+            for (_b, t_) in chain:
+                if callee_name(t_) == "std::vec::Vec::push":
+                    lv_ = pb.trace(t_["args"][1])
+                    cv = [l.data.get("int") for l in lv_ if l.kind == "const"]
+                    if len(lv_) == 1 and len(cv) == 1 and cv[0] is not None and 0 < cv[0] < 128 and chr(cv[0]).strip() == "":
+                        consts["sep"] = chr(cv[0])
+                        seq.append("separator")
+                    else:
+                        seq.append("byte?")
+                else:
+                    k_ = classify(pb.trace(t_["args"][1], (), None, THRU2))
+                    seq.append(next(iter(k_)) if len(k_) == 1 else "mixed:" + ",".join(sorted(k_)))
+            want_seq = ["prefix", "separator", "len(type)", "separator", "type", "separator", "len(payload)", "separator", "payload"]
+            ctx.inst("C20/D1", "header fields", seq == want_seq, "pieces appended in order: %s (expected %s)" % (seq, want_seq), pack["at"])
+            ctx.inst("C20/D1", "payload appended verbatim after the header", seq == want_seq and all(
+                not lf.via for lf in pb.trace(chain[-1][1]["args"][1])), "the last piece is the payload parameter itself", pack["at"])
     prefix_const, sep_const = consts["prefix"], consts["sep"]
     if parts_form:
         kinds = set()
